@@ -396,6 +396,21 @@ func VerifyFunction(L *Loaded, name string, ct *Contract, prop string) (res *Fun
 		res.Error = "contract drift: function not found: " + name
 		return
 	}
+	if ct != nil && ct.Implements != "" {
+		// behavioural subtyping: the method must satisfy the interface contract too
+		ic := L.CF.Contracts[ct.Implements]
+		if ic == nil {
+			res.Error = "contract drift: no interface contract " + ct.Implements
+			return
+		}
+		merged := *ct
+		merged.Requires = append(append([]*Clause{}, ct.Requires...), ic.Requires...)
+		merged.Ensures = append(append([]*Clause{}, ct.Ensures...), ic.Ensures...)
+		merged.Signals = append(append([]*Clause{}, ct.Signals...), ic.Signals...)
+		merged.Modifies = append(append([]*Clause{}, ct.Modifies...), ic.Modifies...)
+		merged.NoPanic = ct.NoPanic || ic.NoPanic
+		ct = &merged
+	}
 	vc := NewVC(L, fn, ct)
 	vc.prop = prop
 	res.VC = vc
